@@ -112,6 +112,23 @@ FD_HISTORY = {"hid": "FD-foreign-delete-then-local-create", "ops": [
     {"a": "get_all_trials", "s": 2, "states": ["ALL"], "dc": 1, "as_list": 0, "c": 0},
     {"a": "get_best_trial", "s": 2, "c": 0},
 ]}
+# as above, but the caching client SEES that the study is gone (its read raises KeyError) and ANOTHER client creates the
+# study that gets the re-issued id: a client that has noticed the deletion has no excuse to remember the dead study
+FD2_HISTORY = {"hid": "FD2-foreign-delete-noticed-then-foreign-create", "ops": [
+    {"a": "create_study", "name": "A", "dirs": [0], "c": 0},
+    {"a": "create_trial", "s": 1, "tm": {"has": 0}, "c": 0},
+    {"a": "create_trial", "s": 1, "tm": {"has": 0}, "c": 0},
+    {"a": "set_state", "t": 1, "state": "COMPLETE", "values": [3], "c": 0},
+    {"a": "get_all_trials", "s": 1, "states": ["ALL"], "dc": 1, "as_list": 0, "c": 0},
+    {"a": "delete_study", "s": 1, "c": 2},
+    {"a": "get_all_trials", "s": 1, "states": ["ALL"], "dc": 1, "as_list": 0, "c": 0},
+    {"a": "create_study", "name": "B", "dirs": [1], "c": 2},
+    {"a": "create_trial", "s": 2, "tm": {"has": 0}, "c": 2},
+    {"a": "get_all_trials", "s": 2, "states": ["ALL"], "dc": 1, "as_list": 0, "c": 0},
+    {"a": "set_state", "t": 3, "state": "COMPLETE", "values": [2], "c": 2},
+    {"a": "get_all_trials", "s": 2, "states": ["ALL"], "dc": 1, "as_list": 0, "c": 0},
+    {"a": "get_n_trials", "s": 2, "state": "COMPLETE", "c": 0},
+]}
 F3_HISTORY = {"hid": "F3-finished-template-before-first-sync", "ops": [
     {"a": "create_study", "name": "A", "dirs": [0], "c": 2},
     {"a": "create_trial", "s": 1, "tm": {"has": 0}, "c": 1},
@@ -359,6 +376,13 @@ def judge(ctx, traces, label):
         # created the new object itself must answer for the new object
         if ev is not None and ev.get("c") in recreators:
             reused = False
+        # ... and neither does K2 excuse a client that has SEEN the deletion (a KeyError for that very id) before
+        raw_of = [e["raw"] for e in t["ev"] if e["a"] == "create_study" and "raw" in e]
+        noticed = {e["c"] for e in t["ev"][:i] if e.get("ret", {}).get("k") == "err" and e["ret"].get("v") == "KeyError"
+                   and isinstance(e.get("s"), int) and 1 <= e["s"] <= len(raw_of) and ev is not None
+                   and isinstance(ev.get("s"), int) and 1 <= ev["s"] <= len(raw_of) and raw_of[e["s"] - 1] == raw_of[ev["s"] - 1]}
+        if ev is not None and ev.get("c") in noticed:
+            reused = False
         f = None
         if t["hid"] == K5_HISTORY["hid"] and t["config"] == "rdb3":
             f = ctx.match_known("cached-rdb:name-directions-served-after-foreign-delete")
@@ -409,7 +433,7 @@ def run(ctx):
     tasks = []
     for kind in GROUPS:
         n = n_slow if kind in RDB_LIKE else n_fast
-        hs = [gen_history(ctx.rng, i) for i in range(n)] + [F3_HISTORY, K5_HISTORY, FD_HISTORY]
+        hs = [gen_history(ctx.rng, i) for i in range(n)] + [F3_HISTORY, K5_HISTORY, FD_HISTORY, FD2_HISTORY]
         if ctx.quick:
             hs += [gen_point_first(prng, i) for i in range(n_pf[kind])]
         else:
